@@ -175,7 +175,7 @@ def check_c01(tier, seed):
     cases = gen(rep, ALL_SLOTS, 1, [1, 2] if quick else [1, 2, 3], "c01_mc", workers=6 if quick else 12)
     # the datum expressions once more under arguments beyond 64 bits on either side (-2^64 - 1, 2^127 - 1): integers
     # that a datum carries as big numbers mean what the template says too
-    cases += gen(rep, ["out_datum"], 1, [114, 115], "c01_wide", workers=6)
+    cases += gen(rep, ["out_datum", "b_datum"], 1, [114, 115], "c01_wide", workers=6)   # (b_datum: a base transaction that uses n nowhere else)
     rep.exhaustive = True
     rng = random.Random(seed)
     pairs = pairs_of(cases, 400 if quick else 30000, rng)
@@ -229,7 +229,7 @@ def canary(rep, evs, tag):
 
 
 # ------------------------------------------------------------------------------------- C02
-B_SLOTS = ["b_out_amount", "b_mint", "b_burn", "b_mint2", "b_burn2", "b_mint_burn", "b_mint3", "b_donation", "b_publish", "b_since", "b_until", "b_meta_value", "b_meta_key", "b_datum", "b_redeemer",
+B_SLOTS = ["b_out_amount", "b_optional_out", "b_mint", "b_burn", "b_mint2", "b_burn2", "b_mint_burn", "b_mint3", "b_donation", "b_publish", "b_since", "b_until", "b_meta_value", "b_meta_key", "b_datum", "b_redeemer",
            "b_index", "b_balanced"]
 
 
